@@ -1192,6 +1192,34 @@ func (a *xAnalysis) paramJoin(o, s *xState) bool {
 	}
 	add(Fact{E: t})
 	add(Fact{E: linConst(g).Sub(t)})
+	// two opposite inequalities that both survived are the equality again (the spelling the ordinary join compares)
+	{
+		var merged []Fact
+		used := map[int]bool{}
+		for i, f := range keep {
+			if used[i] {
+				continue
+			}
+			if !f.Eq && !f.Ne {
+				neg := f.E.Scale(-1)
+				for j := i + 1; j < len(keep); j++ {
+					if !used[j] && !keep[j].Eq && !keep[j].Ne && keep[j].E.Equal(neg) {
+						used[j] = true
+						f = tighten(Fact{E: f.E, Eq: true})
+						// keep the spelling of whichever state had the equality
+						for _, of := range o.facts {
+							if of.Eq && (of.E.Equal(f.E) || of.E.Equal(neg)) {
+								f = of
+							}
+						}
+						break
+					}
+				}
+			}
+			merged = append(merged, f)
+		}
+		keep = merged
+	}
 	for k, c := range diff {
 		o.regs[k] = o.regs[k].Add(t.Scale(c / g))
 	}
@@ -1256,6 +1284,26 @@ func (a *xAnalysis) normalize(s *xState, to int) {
 			}
 		}
 		delete(s.regs, r)
+	}
+	// a counter that a copy ladder has run down: when the facts of the path fix a live register that still carries
+	// iteration symbols to zero, it is zero (states that differ only in the names of those symbols can then be joined)
+	for _, r := range gprNames(a.r.Arch) {
+		v := s.regs[r]
+		if v == nil || !live[r] || v.IsConst() {
+			continue
+		}
+		gen, ptr := false, false
+		for k := range v.T {
+			if isGeneratedSym(k) {
+				gen = true
+			}
+			if strings.HasPrefix(k, "&") {
+				ptr = true
+			}
+		}
+		if gen && !ptr && ProveNonNeg(v, s.facts) && ProveNonNeg(v.Scale(-1), s.facts) {
+			s.regs[r] = linConst(0)
+		}
 	}
 	if s.cmpA != nil && !live[flagsReg] {
 		s.cmpA, s.cmpB = nil, nil
@@ -1377,6 +1425,13 @@ func (a *xAnalysis) runRegion(region map[int]bool, entry int, entryStates []*xSt
 		}
 		if xDebug && record {
 			fmt.Printf("block %d (%s) states=%d region=%d header=%d\n", b, a.r.Instrs[a.blocks[b].start].Pos, len(in[b]), len(region), header)
+		}
+		if xDebug && record && os.Getenv("SMGO_DUMP") == fmt.Sprint(b) {
+			for i, st := range in[b] {
+				if i < 6 {
+					fmt.Printf("  STATE %d: %s\n     scr=%v\n", i, st.regKey(), st.scr)
+				}
+			}
 		}
 		if len(in[b]) > xMaxStates {
 			a.res.problems = append(a.res.problems, fmt.Sprintf("state explosion at block %d (%s)", b, a.r.Instrs[a.blocks[b].start].Pos))
